@@ -39,6 +39,14 @@ def run(ctx, idx):
     wr = res.get("mpilot/libraries/eems/netcdf/io.py::EEMSWrite")
     if rd is None or wr is None:
         raise AnalysisError("NetCDF EEMSRead / EEMSWrite vanished")
+    ctx.rule("C18.h", "The NetCDF writer reads every result before it creates its output dataset (lazy evaluation: a variable read from the dataset being rewritten must have been read before it is replaced).")
+    iorules.inputs_evaluated_before_open(ctx, idx, "C18.h", wr[0], "a Read of the same dataset that has not run yet opens the new, empty file")
+    ctx.rule("C18.i", "Reading returns what the file holds now: neither reader nor writer goes through a result cache (functools.lru_cache and the like) keyed by path and variable name - a dataset rewritten in the same process, or read twice with different type options, would come back as the first reading (modified in place by it).")
+    for d_, _r in (rd, wr):
+        memo = K.memoised_helpers(idx, d_.execute)
+        con_ = "%s.execute::no-result-cache" % d_.key
+        ctx.ob("C18.i", con_, d_.module.rel, (memo[0][0].node.lineno if memo else d_.execute.node.lineno), not memo,
+               "no cached helper on the path" if not memo else "`%s` is cached with `@%s`: the variable read first is returned again after the file was rewritten, and the array handed out is the cached object itself (rounded, clipped and filled in place by the first reader)" % (memo[0][0].name, memo[0][1]))
     # ---- a
     d, r = rd
     n = iorules.param_domains(ctx, idx, "C18.a", d)
@@ -383,6 +391,41 @@ def run(ctx, idx):
         dst_v = K.src(s.ast)[:-3]
         if src_v == dst_v:
             probs.append("the coordinate copy assigns a variable to itself")
+    # the copy reads and writes in the same representation: netCDF4 converts packed values (scale_factor / add_offset) and fill
+    # values on both sides by default; switching that off for one side only makes the other side convert the raw numbers again
+    autos = {}
+    for n_ in own_nodes(fi.node):
+        if isinstance(n_, ast.Call) and isinstance(n_.func, ast.Attribute) and n_.func.attr in ("set_auto_maskandscale", "set_auto_scale", "set_auto_mask", "set_always_mask") and n_.args:
+            off = isinstance(n_.args[0], ast.Constant) and n_.args[0].value is False
+            if off or not isinstance(n_.args[0], ast.Constant):
+                autos.setdefault(K.src(n_.func.value), []).append(n_)
+
+    def roots(expr):
+        """names an expression is derived from (x[...] / x.createVariable(...) / x.variables[...])"""
+        out_, work_ = set(), [expr]
+        while work_:
+            e_ = work_.pop()
+            if isinstance(e_, ast.Name):
+                out_.add(e_.id)
+                d0 = K.single_defs(fi).get(e_.id)
+                if d0 is not None and d0 is not e_ and len(out_) < 12:
+                    work_.append(d0)
+            elif isinstance(e_, ast.Subscript):
+                work_.append(e_.value)
+            elif isinstance(e_, ast.Attribute):
+                work_.append(e_.value)
+            elif isinstance(e_, ast.Call):
+                work_.append(e_.func)
+        return out_
+
+    for s in need["values"]:
+        src_r = roots(s.meta["value"])
+        dst_r = roots(s.ast)
+        src_off = sorted(k for k in autos if k in src_r)
+        dst_off = sorted(k for k in autos if k in dst_r)
+        if bool(src_off) != bool(dst_off):
+            side, other = ("template", "output") if src_off else ("output", "template")
+            probs.append("automatic scaling / masking is switched off for the %s only (`%s`): the %s variable still converts, so packed coordinate values (scale_factor / add_offset) are converted twice or not at all and the copied coordinates differ from the template's" % (side, K.src((autos[(src_off or dst_off)[0]])[0])[:60], other))
     ctx.ob("C18.e", con, d.module.rel, h.line, not probs, "dimension, variable, attributes and coordinate values are copied for every template dimension" if not probs else "; ".join(probs))
     # the loop must iterate the template's dimensions of the requested field and lie on every path to the data write
     ok = "DimensionFieldName" in K.src(fi.node) and any("DimensionFieldName" in K.src(n) and ".dimensions" in K.src(n) for n in own_nodes(fi.node) if isinstance(n, ast.Assign))
